@@ -110,12 +110,20 @@ def run_case(case, root, cap=90.0):
     #   "drop_before_close"  the server drops the connection right after answering the last WRITE
     cplan = case.get("close") or "ok"
     close_seen = []
-    if cplan != "ok":
+    stall_from = fault[1] if fault and fault[0] == "stall" else None
+    seen_writes = [0]
+    stalled = [0]
+    if cplan != "ok" or stall_from is not None:
         srv = b.server
         real_process = srv._process
         nwrites = [0]
 
         def process(t, request_number, msg):
+            if t == 6:
+                seen_writes[0] += 1
+                if stall_from is not None and seen_writes[0] - 1 >= stall_from:
+                    stalled[0] += 1  # the server stalls: WRITE neither applied nor answered
+                    return
             if t == 4 and cplan.startswith("status:"):  # CMD_CLOSE
                 close_seen.append(request_number)
                 handle = msg.get_binary()
@@ -171,12 +179,29 @@ def run_case(case, root, cap=90.0):
             wids = [p["id"] for p in b.wire.packets if p["dir"] == "c2s" and p["type"] == 6]
         sync_info["taken"] = sum(1 for w in wids if w not in c._expecting)
 
+    def gone():
+        """The connection goes away after the last pipelined WRITE was sent and before close() runs."""
+        import time as _t
+
+        end = _t.monotonic() + 10
+        while _t.monotonic() < end:
+            with b.wire.plock:
+                rq = sum(1 for p in b.wire.packets if p["dir"] == "c2s" and p["id"] is not None)
+                rs = sum(1 for p in b.wire.packets if p["dir"] == "s2c" and p["id"] is not None)
+            if seen_writes[0] >= case["nwrites"] and rs >= rq - stalled[0]:
+                break
+            _t.sleep(0.0005)
+        close_seen.append(-2)
+        b.wire.server_end.close()
+
     def cbf(done, total):
         cb_calls.append((done, total))
         if sync and len(cb_calls) - 1 == sync[0]:
             do_sync()
+        if cplan == "gone_before_close" and len(cb_calls) == case["nwrites"]:
+            gone()
 
-    cb = cbf if (case.get("callback") or sync) else None
+    cb = cbf if (case.get("callback") or sync or cplan == "gone_before_close") else None
     box = dict(done=False, exc=None, ret=None, sink=None)
 
     def work():
@@ -221,6 +246,9 @@ def run_case(case, root, cap=90.0):
                     f.write(data[o:o + step])
                     if sync and wi == sync[0]:
                         do_sync()
+                if cplan == "gone_before_close":
+                    f.flush()
+                    gone()
                 f.close()
             elif op == "get":
                 c.get("/r", local, callback=cb, prefetch=case["prefetch"],
@@ -292,6 +320,7 @@ def run_case(case, root, cap=90.0):
         out["callback_last_done"] = cb_calls[-1][0]
     if "lagged_stat" in box:
         out["lagged_stat"] = box["lagged_stat"]
+    out["stalled_writes"] = stalled[0]
     out["close_plan"] = cplan
     out["close_fault_delivered"] = bool(close_seen)
     out.update(reads=script.reads, writes=script.writes, callback_calls=len(cb_calls),
